@@ -31,6 +31,8 @@ pub struct FiredR {
     /// bitmask of original top-level entries whose value had been delivered completely when the
     /// error fired
     pub top_done: u32,
+    /// the step panicked instead of returning an error
+    pub panic: bool,
 }
 
 #[derive(Clone, Copy, Debug, PartialEq, Eq)]
@@ -57,6 +59,8 @@ pub struct ReadState {
     pub trace: Option<Vec<(RStep, u8)>>,
     /// the code under test kept calling although every step failed: it does not terminate
     pub runaway: bool,
+    /// an injected panic fired during this read
+    pub panicked: bool,
 }
 
 pub struct ReadEnv<'de> {
@@ -154,17 +158,26 @@ impl<'de> ReadEnv<'de> {
         }
         let top_done = st.top_done;
         if st.permanent {
-            st.fired.push(FiredR { step: k, permanent: true, what, depth, top_done });
+            st.fired.push(FiredR { step: k, permanent: true, what, depth, top_done, panic: false });
             st.log.u64(0xFA17);
             return Err(SimError::Injected(k));
         }
         for f in self.faults {
+            if let RFault::Panic { step } = f {
+                if *step == k {
+                    st.fired.push(FiredR { step: k, permanent: false, what, depth, top_done, panic: true });
+                    st.log.u64(0xFA18);
+                    st.panicked = true;
+                    drop(st);
+                    panic!("injected panic at read step {}", k);
+                }
+            }
             if let RFault::Err { step, permanent } = f {
                 if *step == k {
                     if *permanent {
                         st.permanent = true;
                     }
-                    st.fired.push(FiredR { step: k, permanent: *permanent, what, depth, top_done });
+                    st.fired.push(FiredR { step: k, permanent: *permanent, what, depth, top_done, panic: false });
                     st.log.u64(0xFA17);
                     return Err(SimError::Injected(k));
                 }
